@@ -7,6 +7,7 @@ package main
 //	digest token    <alg>:<content token> | <alg>:?k (well formed, no known content) | bad:k (does not parse)
 //	media type tok  ocim ocii dockm dockl cfg dcfg empty lay other
 import (
+	"encoding/base64"
 	"encoding/json"
 	"fmt"
 	"sort"
@@ -130,6 +131,25 @@ func (t *Tokens) contentName(b []byte) string {
 		return n
 	}
 	return fmt.Sprintf("?%dbytes", len(b))
+}
+
+// twinDef is the DEF line that gives a referrers response document (named by its structure) a body of its own, for a
+// client that pushes the very same bytes as a manifest ("twin"); the bytes stay the registered ones
+func (t *Tokens) twinDef(name string) (string, bool) {
+	raw, ok := t.rawOf[name]
+	if !ok || !strings.HasPrefix(name, "R(") || strings.ContainsAny(name, " \t\n") {
+		return "", false
+	}
+	var idx types.Index
+	if json.Unmarshal(raw, &idx) != nil {
+		return "", false
+	}
+	cs := []string{}
+	for _, d := range idx.Manifests {
+		cs = append(cs, fmt.Sprintf("%s/%s/%d", mtToken(d.MediaType), t.tokDigest(d.Digest.String()), d.Size))
+	}
+	// raw= carries the bytes themselves, so that the line can be replayed without the listing that taught the name
+	return fmt.Sprintf("DEF %s index mt=ocii children=%s len=%d raw=%s", name, strings.Join(cs, ";"), len(raw), base64.RawURLEncoding.EncodeToString(raw)), true
 }
 
 func annCanon(a map[string]string) string {
